@@ -45,7 +45,7 @@ def gen_pos(rng, lo=1.0, hi=10.0, integer=False):
 
 
 def gen_los(rng):
-    kind = rng.choice(["generic", "generic", "grazing", "surface", "near", "far-side", "neighbours"])
+    kind = rng.choice(["generic", "generic", "grazing", "surface", "near", "far-side", "neighbours", "radial"])
     R = float(earth().radius)
     r1 = gen_pos(rng, 1.001, 8.0, integer=rng.random() < 0.5)
     if kind == "generic":
@@ -66,6 +66,12 @@ def gen_los(rng):
         q = a + u * d
         p2 = q / np.linalg.norm(q) * (R + h2)
         r1, r2 = [float(x) for x in p1], [float(x) for x in p2]
+    elif kind == "radial":
+        # exactly collinear, same side: a satellite straight above a site (or above another satellite); the cosine of the angle between
+        # them is 1 up to rounding, on either side of it
+        r1 = gen_pos(rng, 1.0, 3.0, integer=rng.random() < 0.3)
+        k = rng.choice([1.5, 2.0, 3.0, 1.0 + 2**-10, rng.uniform(1.001, 8.0)])
+        r2 = [x * k for x in r1]
     elif kind == "surface":
         r1 = gen_pos(rng, 1.0, 1.0001)
         r2 = gen_pos(rng, 1.0, 7.0)
